@@ -385,11 +385,21 @@ def p4(model: Model, rep: Report):
         raise AnalysisError("InitialStateEnum not found")
     for m in members:
         hit = [o for o in outs if subst(o.cond, {st: ("enum", "InitialStateEnum", m)}) == TRUE]
+        if not hit:
+            # no guard names the member: the gate is looked up (table scan / next(..)); read the function again with the member as its argument
+            try:
+                outs_m = Evaluator(model, inline_methods=False).eval_function(f, args={f.param_names[2]: ("enum", "InitialStateEnum", m)}, self_cls=I)
+            except Unsupported as e_:
+                raise AnalysisError(f"InitialStateContainer.get_operation[{m}]: {e_}")
+            hit = [o for o in outs_m if o.cond == TRUE]
+            if len(hit) != 1 or hit[0].kind != "return" or hit[0].value is None or hit[0].value[0] not in ("new", "call") or \
+                    (hit[0].value[0] == "call" and not (isinstance(hit[0].value[1], tuple) and hit[0].value[1][0] == "cls")):
+                raise AnalysisError(f"InitialStateContainer.get_operation[{m}]: the gate of the state is looked up in a way that is not read ({[str(o)[:80] for o in outs_m][:2]})")
         want = STATE_TABLE.get(m)
         ok = len(hit) == 1 and hit[0].kind == "return" and want is not None
         found = None
         if len(hit) == 1 and hit[0].kind == "return":
-            v = hit[0].value
+            v = subst(hit[0].value, {st: ("enum", "InitialStateEnum", m)})
             cls_name = v[1] if v[0] == "new" else (v[1][1] if v[0] == "call" and isinstance(v[1], tuple) and v[1][0] == "cls" else None)
             args = (dict(v[2]).get("qubit_index") if v[0] == "new" else (v[2][0] if v[2] else None))
             found = f"{cls_name}({show(args) if args else ''})"
